@@ -1,6 +1,7 @@
 import GambitV.Model.Taxonomy
 import GambitV.Spec.Taxonomy
 import Driver.Proto
+import Driver.PyGenCmp
 namespace Driver.Tax
 open GambitV Driver
 
@@ -21,14 +22,19 @@ def handle : List String → Option String
   -- single lineage functions: matching / next / reportable
   | ["c03.match", f, t, d, real] => do
     let F ← parseForest f
-    pure (expect (optNatOf (predictedSpec F (← t.toNat?) (← d.toNat?))) real)
+    let t ← t.toNat?
+    let d ← d.toNat?
+    let r := expect (optNatOf (predictedSpec F t d)) real
+    if r != "ok" then pure r else
+    pure ((PyGen.matching F t d real).getD "ok")
   | ["c03.next", f, t, d, real] => do
     let F ← parseForest f
     let t ← t.toNat?
     let d ← d.toNat?
     let r := expect (optNatOf (nextSpec F t d)) real
     if r != "ok" then pure r else
-    pure (if nextTaxon F t d == nextSpec F t d then "ok" else "FAIL model/spec disagree (next)")
+    if nextTaxon F t d != nextSpec F t d then pure "FAIL model/spec disagree (next)" else
+    pure ((PyGen.next F t d real).getD "ok")
   | ["c03.report", f, t, real] => do
     let F ← parseForest f
     pure (expect (optNatOf (reportSpec F (← parseOptNat t))) real)
@@ -64,7 +70,8 @@ def handle : List String → Option String
     if r != "ok" then pure r else
     let (mc, mo) := consensusPaths paths
     let ms := optNatOf (mc.bind (fun p => p.getLast?)) ++ "/" ++ natsOf (sortNat (dedup (mo.filterMap (fun p => p.getLast?))))
-    pure (if ms == cons ++ "/" ++ others then "ok" else s!"FAIL model/spec disagree (consensus) model={ms}")
+    if ms != cons ++ "/" ++ others then pure s!"FAIL model/spec disagree (consensus) model={ms}" else
+    pure ((PyGen.consensus F taxa (cons ++ "/" ++ others)).getD "ok")
   | ["c10.classify", f, gtax, ds, success, predicted, primary, closest, warn, failed] => do
     let F ← parseForest f
     let gtax ← parseNats gtax
